@@ -222,6 +222,21 @@ func c01MustRecurse(c *Ctx, reach map[*ssa.Function]bool) {
 				}
 			}
 		}
+		// a self-call that passes on exactly the function's own parameters (or has none) makes no progress through its
+		// arguments: whether it ever stops depends on state outside the call (a field, the file system), which a peer may
+		// be able to pin – e.g. "go to the parent directory and try again" at the root
+		for _, call := range Calls(fn) {
+			if _, isGo := call.(*ssa.Go); isGo || call.Common().StaticCallee() != fn {
+				continue
+			}
+			same := true
+			for i, a := range call.Common().Args {
+				if i >= len(fn.Params) || a != ssa.Value(fn.Params[i]) {
+					same = false
+				}
+			}
+			c.Check(!same, "no-unconditional-recursion", shortFn(fn)+" self-call makes progress", p.InstrPos(call), "the self-call is given different arguments", "this function calls itself with exactly the arguments it was called with: the recursion does not descend on anything, so it ends only if state outside the call changes; where a client can keep that state fixed (e.g. the directory walked up to is its own parent) the stack grows until the runtime aborts the whole process (stack exhaustion is not recoverable)")
+		}
 		c.Check(escapes, "no-unconditional-recursion", shortFn(fn), p.InstrPos(site), "recursive, but some path returns without recursing", "every path through this function calls the function itself again ("+p.InstrPos(site)+"): the first call never returns and the goroutine's stack grows until the runtime aborts the whole process (stack exhaustion is not recoverable)")
 	}
 	c.Extra["self_recursive_functions_reachable"] = nrec
